@@ -424,6 +424,40 @@ func ruleC08SameJoin(c *Checker) {
 		}
 	}
 	c.check(users["Builder"], R, "Builder", "uses the shared join", "-", "the builder joins through FinalSourceAddr", "the builder combines registry sub-paths differently from the lookup")
+	// every success return of the registry resolver went through the join with the caller's source
+	for _, fn := range p.Funcs {
+		if !inBundlePkg(p, fn) {
+			continue
+		}
+		isResolver := false
+		for _, ci := range callsIn(fn) {
+			if ci.Common().IsInvoke() && ci.Common().Method.Name() == "ModulePackageSourceAddr" {
+				isResolver = true
+			}
+		}
+		if !isResolver {
+			continue
+		}
+		for i, r := range successReturns(fn) {
+			okj := false
+			for _, v := range returnValues(r, 0) {
+				if v == nil {
+					continue
+				}
+				for x := range p.backSlice(v, 0) {
+					if cl, ok := x.(*ssa.Call); ok && cl.Common().StaticCallee() != nil && cl.Common().StaticCallee().Name() == "FinalSourceAddr" {
+						// receiver is the requested source (a parameter of the resolver)
+						for y := range p.backSlice(cl.Call.Args[0], 0) {
+							if prm, ok := y.(*ssa.Parameter); ok && prm.Parent() == fn {
+								okj = true
+							}
+						}
+					}
+				}
+			}
+			c.check(okj, R, p.FuncName(fn), fmt.Sprintf("success return %d joined with the caller's sub-path", i), p.Pos(r.Pos()), "the returned address is sourceAddr.FinalSourceAddr(registry's address)", "the resolver can return the registry's address without the requesting source's sub-path (cache-hit or early-return path): the finder then analyses the wrong directory and that sub-module's dependencies are never discovered")
+		}
+	}
 	c.check(users["Bundle"], R, "Bundle", "uses the shared join", "-", "the bundle lookup joins through FinalSourceAddr", "the bundle lookup combines registry sub-paths differently from the builder")
 }
 
